@@ -96,6 +96,8 @@ ALLOWED_FIELD_TYPES = re.compile(r"^(PrefixTree\d|BTreeMap<u32,Vec<\[u32;\d+\]>>
 def rule_det_emitted(p):
     res = RuleResult("T-DET")
     files = [p.job["module_files"][0], p.job["cmodule_files"][0]] + list(p.job["comp_files"])
+    # identifiers the theory itself declares (a type may be called Instant) are not library facilities
+    declared = set(p.model.structs) | set(p.model.enums) | {v["n"] for e in p.model.enums.values() for v in e["variants"]}
     for f in files:
         with open(f) as fh:
             for i, line in enumerate(fh, 1):
@@ -103,6 +105,8 @@ def rule_det_emitted(p):
                 if code.lstrip().startswith("use "):
                     continue
                 mm = FORBIDDEN_TOKENS.search(code)
+                if mm and mm.group(0).strip() in declared:
+                    mm = None
                 if mm:
                     res.bad("T-DET:token:%s" % mm.group(0).strip(), "%s:%d" % (f.split("/emit/")[-1], i), "emitted code mentions `%s`" % mm.group(0).strip())
         res.ok()
